@@ -783,6 +783,18 @@ def oracle_c09(obs: Obs) -> list[Violation]:
     from aioesphomeapi.core import APIConnectionError
 
     v: list[Violation] = []
+    # the socket-connect stage of one connect: candidates are raced one per address family and round, each round is
+    # given up after 60 s -- so it takes at most 60 s x the larger of (#IPv4, #IPv6 candidates)
+    first = None
+    for e in obs.trace:
+        if e["kind"] == "conn_start_called":
+            first = None
+        elif e["kind"] == "tcp_start" and first is None:
+            n6 = sum(1 for a in e["addrs"] if ":" in a)
+            first = (e["t"], max(n6, len(e["addrs"]) - n6, 1))
+        elif e["kind"] == "tcp_end" and first is not None and e["t"] - first[0] > 60.0 * first[1] + 1.0:
+            v.append(Violation("C09", "c09:too-slow:socket-connect-stage", f"socket-connect stage started at t={first[0]} with {first[1]} round(s) of candidates, still going at t={e['t']}"))
+            first = (first[0], 10**6)
     for name in obs.tasks_pending:
         v.append(Violation("C09", f"c09:hang:{_strip_idx(name)}", f"operation {name} still pending at {'quiescence' if obs.quiescent else 'horizon'} t={obs.end_time}"))
     for name, r in obs.results.items():
